@@ -6,10 +6,10 @@ ids = [json.loads(l)["id"] for l in open(os.path.join(V, "properties.jsonl"))]
 
 T = "Coq 8.16 theorems over the hand-written Gallina model, closed by the kernel (no axioms); model tied to /repo on every run by regenerated constants and by differential execution of the extracted model against libsrtp (ASan/UBSan) on generated scripts; independent monitors on the implementation's transcript give the replay. "
 CLAIMED = {
- "C01": (T + "Theorems: srtp_protect refines a pure function and what it emits is rtp_wire (header | payload xor keystream | MKI | tag over body||ROC) for the selected key and estimated index; srtp_unprotect on that wire image returns status ok, the original length and the byte-identical packet with no out-of-bounds access, for every packet (any CSRC count, extension shape, payload length incl. empty), any MKI setting, encrypt+auth / auth-only / none, any alias mode on either side, for explicit streams without cryptex and without RFC 6904 encryption; RFC 6904 element walks (both forms, whole block) are involutions and the cryptex CSRC shuffle is undone by its inverse. PARTIAL: the end-to-end theorem for the RFC 6904 and cryptex classes is not closed yet (algebraic cores + vm_compute examples through the full model + differential round-trip runs cover them); GCM / AES-192 / other back ends are not built here; the wildcard-clone path is proved separately (C13/C14/C17).",
-         "6.C01", "Coq proof (refinement of the monadic SRTP sender to a byte-level wire function + round-trip theorem for the receiver) + differential round-trip runs"),
- "C12": (T + "Theorems: the monadic models over explicit source/destination blocks with an alias flag refine pure functions of (session, packet bytes, capacity): srtp_protect_rtcp and srtp_unprotect_rtcp for every input, srtp_protect for every input on streams without cryptex / RFC 6904 cipher; srtp_unprotect returns the packet in every mode on every wire packet of such a stream; hence status, length, output octets and final session are independent of the alias mode and of the destination's previous content, and the source is left alone. Known finding F16 (cryptex with RFC 6904, outside C01's domain) is refuted on the model by evaluation and replayed on the library. PARTIAL: srtp_unprotect on arbitrary (tampered / malformed) input and the cryptex / RFC 6904 classes are covered by the four-modes differential family and evaluated examples, not yet by a closed theorem.",
-         "6.C12", "Coq proof (refinement of the buffer-monad models to alias-free pure functions) + four-modes differential runs"),
+ "C01": (T + "Theorems: srtp_protect refines a pure function and what it emits is rtp_wire (header with RFC 6904 / cryptex transformations | payload xor keystream | MKI | tag over body||ROC) for the selected key and estimated index; the peer's srtp_unprotect on that wire image returns status ok, the original length and the byte-identical packet with no out-of-bounds access, for every packet of octets (any CSRC count, extension shape, payload length incl. empty), any MKI setting, encrypt+auth / auth-only / none, any alias mode on either side, for every explicit stream of the property's domain: plain, RFC 6904 header-extension encryption, cryptex (srtp_protect_unprotect_domain). Cryptex combined with RFC 6904 (outside the domain) is shown not to round-trip by evaluation. PARTIAL: GCM / AES-192 / other back ends are not built here; the wildcard-clone path is proved separately (C13/C14/C17) and exercised by the wildcard variants of the round-trip family.",
+         "6.C01", "Coq proof (refinement of the monadic SRTP sender to a byte-level wire function + round-trip theorem for the receiver, all stream classes) + differential round-trip runs"),
+ "C12": (T + "Theorems: the monadic models over explicit source/destination blocks with an alias flag refine pure functions of (session, packet bytes, capacity): srtp_protect_rtcp, srtp_unprotect_rtcp and srtp_unprotect for every input (valid, replayed, tampered, malformed) and every well-formed stream; srtp_protect for every input on every stream that does not combine cryptex with RFC 6904; hence status, length, output octets and final session are independent of the alias mode and of the destination's previous content, and the source is left alone. Known finding F16 (srtp_protect with cryptex AND RFC 6904, outside C01's domain) is refuted on the model by evaluation and replayed on the library. PARTIAL: explicit streams (wildcard-clone path covered by the four-modes differential family); AEAD paths not built in this configuration.",
+         "6.C12", "Coq proof (refinement of the buffer-monad models to alias-free pure functions, all four packet functions) + four-modes differential runs"),
  "C02": (T + "Theorems: byte-level description of what srtp_protect_rtcp emits (header | body xor keystream when E | E+index | MKI | tag); the trailer's E flag and index are the ones the receiver extracts; the monadic protect/unprotect refine pure functions; unprotect_rtcp(protect_rtcp(p)) = p byte for byte with status ok, for every packet >= 8 octets, every MKI setting, encrypt+auth / auth-only / none, either alias mode on either side, for explicit streams of the internal crypto configuration. PARTIAL: GCM / AES-192 / other back ends are not built here; the wildcard-clone path is proved separately (C13/C14/C17).",
          "6.C02", "Coq proof (refinement of the monadic SRTCP code to a byte-level wire function + round-trip theorem) + differential round-trip runs"),
  "C03": (T + "Theorems: the model's AES-ICM counter handling, IV formation (SRTP and SRTCP), keystream application and key derivation (labels 0..7, key/salt/auth lengths, 128- and 256-bit master keys) equal an independent Gallina specification written from RFC 3711 over AES-ECB only (with the RFC's B.2/B.3 vectors as Examples); SRTCP packet layout by C02's wire theorem. The check additionally runs the specification against libsrtp's packets (spec_rtp / spec_rtcp / spec_kdf ops). Known finding F8a (RFC 6904 keystream not positional) reported as KNOWN-FINDING. PARTIAL: GCM (RFC 7714), AES-192 (RFC 6188) and the other crypto back ends are not built in this configuration.",
